@@ -13,6 +13,9 @@ CLAIMED = {
  "C05": dict(module="ParamCore", design="5 C05", technique="TLA+ spec ParamCore with fault actions (rejected value, raising callback, raising context body) + TLC QuiescentClean/StillBatched; generated fault behaviours replayed on real param, then a behavioural probe against a fresh twin object",
    text="Faults are first-class actions of the specification and the behaviour continues after them; TLC checks that the dispatch state is clean at every quiescent point and still batching inside an open batch (both OnAbort alternatives are admissible, the one the code implements is calibrated at run time). Every generated behaviour with faults is replayed; after it the real object is compared with a freshly built twin (same values, same watchers) under a probe program, which is the property's own observation.",
    note="As for C03; fault positions: k-th item of update, k-th callback of a set / flush / trigger, body of batch / discard / update context, <=3 faults per behaviour."),
+ "C18": dict(module="SelectorObjs", design="5 C18", technique="TLA+ spec SelectorObjs (every ListProxy mutator an action) + TLC ViewsAgree/Unique/StyleKept; all mutation sequences replayed on real Selector/ListSelector at class and instance level",
+   text="TLC checks on the specification that list view, name mapping and range stay a consistent ordered bijection under every sequence of <=5-7 mutators for list- and dict-declared Selector and ListSelector; every generated sequence (exhaustive to 2-3 operations over 3-4 objects, random to 8) is replayed on the real Parameter, at class level and on a per-instance Parameter copy, comparing after each step list(objects), objects.items(), names, get_range(), the return value, the number of `objects` notifications and accept/reject of value assignments.",
+   note="Style-consistent operations and unique hashable objects (the property's quantifier); equal-but-not-identical objects are outside the domain."),
 }
 PENDING = "check not built yet in this session (specification module planned in DESIGN.md section 4); listed here so that nothing is claimed without a running check"
 man = {
